@@ -316,7 +316,7 @@ class Ops(SeriesOps):
                 g.setcol(new, t)
             self.log("rename", node, src=f.obj, dst=g.obj, mapping={str(k): str(v) for k, v in mapping.items()})
         else:
-            self.log("rename-index", node, src=f.obj, dst=g.obj, mapper=to_term(kw.get("mapper", pos[0] if pos else None)))
+            self.log("rename-index", node, src=f.obj, dst=g.obj, mapper=to_term(kw.get("mapper", kw.get("index", pos[0] if pos else None))))
             g.index = ("mapped", self.index_term(f), to_term(kw.get("mapper", kw.get("index", pos[0] if pos else None))))
         return self._inplace(f, g, kw, node, "rename")
 
